@@ -24,7 +24,7 @@ import (
 func init() {
 	Props["C15"] = &harness.Prop{
 		ID:             "C15",
-		Rule:           "histories: alphabet of 29 inputs (incl. two pairs of MSM frames with the same type, length and CRC value but different contents, four MSM4/MSM7 frames whose cells and satellites carry the reserved 'invalid' values, three MSM frames that carry a time error from the handler and are also too short to decode) (1005, 1006, MSM4 and MSM7 of GPS, Galileo, GLONASS and BeiDou with cells, four MSM messages whose cell masks have the same value and length but the shapes 2x3, 3x2, 1x6 and 6x1, 1230, an unknown type, non-RTCM text, a CRC-broken frame); every sequence of length <=3 (quick) / <=4 (thorough) through ONE handler at both log levels; each element is decoded (Analyse) and displayed twice; oracle: decoded structure deep-equal and text (without the MSM time lines) equal to those of a fresh handler, second and third display identical, decoded fields after display deep-equal to those of an undisplayed twin, raw bytes unchanged, and every message decoded earlier in the history and still held is displayed again and deep-compared after each later frame (nothing may be shared between messages); value copies of a delivered message: what consumer A does with its copy (String, Analyse, field assignments) leaves consumer B's copy deep-equal to a pristine one, also when A displays first at a different log level or after the message was analysed; stream histories: every sequence of <=3 of nine inputs, each a stream of its own through HandleMessages on one handler, with every delivered message held and re-examined (raw bytes, text) after each later stream; each input also decoded and displayed as the first library call of a fresh process (one child process per input and level) and compared with the result after thousands of frames; non-RTCM messages of 1030..65537 bytes delivered by HandleMessages, displayed three times while a second consumer holds a copy. concurrency: two (thorough: also three) threads decoding and displaying frames on separate handlers and on value copies of one message, with scheduling points at every function and loop entry of rtcm/handler, rtcm/utils, rtcm/header and the six MSM and two station packages; every schedule with <=1 (quick) / <=2 (thorough) preemptions; oracle: every result equals the sequential baseline. Non-trivial = histories of length >=2 / distinct schedule traces",
+		Rule:           "histories: alphabet of 29 inputs (incl. two pairs of MSM frames with the same type, length and CRC value but different contents, four MSM4/MSM7 frames whose cells and satellites carry the reserved 'invalid' values, three MSM frames that carry a time error from the handler and are also too short to decode) (1005, 1006, MSM4 and MSM7 of GPS, Galileo, GLONASS and BeiDou with cells, four MSM messages whose cell masks have the same value and length but the shapes 2x3, 3x2, 1x6 and 6x1, 1230, an unknown type, non-RTCM text, a CRC-broken frame); every sequence of length <=3 (quick) / <=4 (thorough) through ONE handler at both log levels; each element is decoded (Analyse) and displayed twice; oracle: decoded structure deep-equal and text (without the MSM time lines) equal to those of a fresh handler, second and third display identical, decoded fields after display deep-equal to those of an undisplayed twin, raw bytes unchanged, and every message decoded earlier in the history and still held is displayed again and deep-compared after each later frame (nothing may be shared between messages); value copies of a delivered message: what consumer A does with its copy (String, Analyse, field assignments) leaves consumer B's copy deep-equal to a pristine one, also when A displays first at a different log level or after the message was analysed; each input through a handler after which a handler of the other level was created (several handlers in one process); stream histories: every sequence of <=3 of nine inputs, each a stream of its own through HandleMessages on one handler, with every delivered message held and re-examined (raw bytes, text) after each later stream; each input also decoded and displayed as the first library call of a fresh process (one child process per input and level) and compared with the result after thousands of frames; non-RTCM messages of 1030..65537 bytes delivered by HandleMessages, displayed three times while a second consumer holds a copy. concurrency: two (thorough: also three) threads decoding and displaying frames on separate handlers and on value copies of one message, with scheduling points at every function and loop entry of rtcm/handler, rtcm/utils, rtcm/header and the six MSM and two station packages; every schedule with <=1 (quick) / <=2 (thorough) preemptions; oracle: every result equals the sequential baseline. Non-trivial = histories of length >=2 / distinct schedule traces",
 		Assumptions:    []string{"interleavings inside unsynchronised code are explored at function/loop-entry granularity; 'no data race' at the memory-model level is outside a cooperative scheduler and only touched by the auxiliary -race pass", "the two MSM time lines ('Time ...', 'Start of ... week ...') are removed before comparing texts, as the statement excludes them"},
 		Pre:            c15Histories,
 		Scenarios:      c15Scenarios,
@@ -289,6 +289,26 @@ func c15Histories(r *ev.Run) {
 		}
 		rec(*handler.New(T0, lvl), nil, nil)
 		r.Count(n, 0, tr*4, n)
+		// several handlers with different levels in one process: what a handler
+		// delivers and displays must not depend on a handler created after it
+		for i, in := range alpha {
+			h := handler.New(T0, lvl)
+			other := slog.LevelInfo
+			if lvl == slog.LevelInfo {
+				other = slog.LevelDebug
+			}
+			_ = handler.New(T0, other)
+			res, fault := decodeDisplay(h, in.bytes)
+			if fault != "" {
+				fail(fault, lvl, []string{in.name}, "a handler of another level was created after this one")
+			} else if d := sameResult(res, base[i]); d != "" {
+				fail("result-depends-on-another-handler: "+d, lvl, []string{in.name}, "a handler of another level was created after this one")
+			} else if res.msg != nil && base[i].msg != nil && res.msg.LogLevel != base[i].msg.LogLevel {
+				fail("result-depends-on-another-handler: log level of the delivered message", lvl, []string{in.name}, fmt.Sprintf("%v, alone %v", res.msg.LogLevel, base[i].msg.LogLevel))
+			}
+			_ = handler.New(T0, lvl) // leave the process as a single-level one for what follows
+			r.Count(1, 0, 3, 1)
+		}
 		// value copies handed to two consumers
 		for i, in := range alpha {
 			i, in := i, in
